@@ -127,6 +127,17 @@ def runR (s : St) (g : String → List Rec) : List (Int × Op) → St × (String
   | [] => (s, g)
   | (h, op) :: ops => runR (step s h op).1 (reqStep s h op g) ops
 
+/-! ### C02 observations served by this family (histories with unlock records, which the AMM families
+    of C02 do not have): pool units = Σ provider units, and a removal burns exactly what it says -/
+
+/-- `provUnits`: the units of EVERY liquidity-provider record of the pool -/
+def poolUnitsOK (poolUnits : Nat) (provUnits : List Nat) : Bool := decide (poolUnits = provUnits.foldl (· + ·) 0)
+
+/-- an accepted `MsgRemoveLiquidityUnits{w}`: the provider held at least `w` and holds exactly `w` less
+    afterwards; by basis points: not more than before.  (`w = 0`: removal by basis points.) -/
+def burnOK (before w after : Nat) (accepted : Bool) : Bool :=
+  !accepted || (if w = 0 then decide (after ≤ before) else decide (w ≤ before ∧ after = before - w))
+
 /-- block heights of a history: non-negative, non-decreasing, below 2^63 -/
 def heightsMono : Int → List (Int × Op) → Bool
   | _, [] => true
